@@ -255,3 +255,39 @@ Proof.
   - injection Ho as ->. f_equal. eapply Eval_functional; eassumption.
   - apply IH; exact Ho.
 Qed.
+
+(* ---------------- all entry points return the same values ---------------- *)
+Theorem entry_points_agree c a : WF c -> arity_ok c -> assigns_inputs_only c a ->
+  exists dfull dstack r,
+    evaluate_full_circuit c a = Ok dfull /\ evaluate_circuit c a None = Ok dstack /\
+    evaluate_circuit_outputs c a = Ok r /\
+    forall o, In o (outputs c) ->
+      exists v, dget dfull o = Some v /\ dget dstack o = Some v /\ dget r o = Some v /\ Eval c a o v.
+Proof.
+  intros Hwf Har Ha.
+  destruct (evaluate_full_circuit_complete c a Hwf Har Ha) as (dfull & Hf & Hfull).
+  destruct (evaluate_circuit_complete c a None Hwf Har Ha) as (dstack & Hs & Hstack & _ & _).
+  { intros o Ho. apply (wf_outs c Hwf); exact Ho. }
+  destruct (evaluate_circuit_outputs_complete c a Hwf Har Ha) as (r & Hr & Hout & _).
+  exists dfull, dstack, r. repeat (split; [assumption|]). intros o Ho.
+  destruct (Hfull o (wf_outs c Hwf o Ho)) as (v & Hv & He).
+  destruct (Hstack o Ho) as (v2 & Hv2 & He2). destruct (Hout o Ho) as (v3 & Hv3 & He3).
+  rewrite (Eval_functional _ _ _ _ _ He2 He) in Hv2. rewrite (Eval_functional _ _ _ _ _ He3 He) in Hv3.
+  exists v. auto.
+Qed.
+
+(* evaluate / evaluate_at are the positional readings of the same values *)
+Theorem evaluate_agrees_with_full c vals : WF c -> arity_ok c -> length (inputs c) <= length vals ->
+  exists dfull vs, evaluate_full_circuit c (vec_assignment c vals) = Ok dfull /\ evaluate c vals = Ok vs /\
+    Forall2 (fun o v => dget dfull o = Some v) (outputs c) vs.
+Proof.
+  intros Hwf Har Hlen.
+  destruct (evaluate_full_circuit_complete c _ Hwf Har (vec_assignment_inputs_only c vals)) as (dfull & Hf & Hfull).
+  destruct (evaluate_complete c vals Hwf Har Hlen) as (vs & Hvs & HF).
+  exists dfull, vs. split; [exact Hf|]. split; [exact Hvs|].
+  assert (Hsub : forall o, In o (outputs c) -> has_gate c o = true) by (apply (wf_outs c Hwf)).
+  clear Hvs. induction HF as [|o v os vs0 Hov _ IH]; constructor.
+  - destruct (Hfull o (Hsub o (or_introl eq_refl))) as (v' & Hv' & He').
+    rewrite (Eval_functional _ _ _ _ _ Hov He'). exact Hv'.
+  - apply IH. intros x Hx. apply Hsub. right. exact Hx.
+Qed.
